@@ -9,6 +9,7 @@ import PqlModel.Props.C06ParamsExamples
 import PqlModel.Props.C06Placeholders
 import PqlModel.Props.C02ProgramNames
 import PqlModel.Props.C06CompileIR
+import PqlModel.Props.IRHeadlinesB
 #print axioms Pql.C06.C06_shadow
 #print axioms Pql.C06.C06_other_binding_irrelevant
 #print axioms Pql.C06.C06_after_ignored
@@ -75,3 +76,7 @@ import PqlModel.Props.C06CompileIR
 #print axioms Pql.ExprIR.C06_compilePre_ir
 #print axioms Pql.ExprIR.C06_compile_ir
 #print axioms Pql.ExprIR.C06_compile_scope_order
+#print axioms Pql.IRHead.C06_lookup_ir
+#print axioms Pql.IRHead.C06_placeholder_params_ir
+#print axioms Pql.IRHead.C06_placeholder_params_ir_nonvacuous
+#print axioms Pql.IRHead.C06_on_translated_code
